@@ -472,7 +472,10 @@ func (conn *obfs4Conn) Read(b []byte) (int, error) {
 	for conn.receiveDecodedBuffer.Len() == 0 {
 		if conn.readErr != nil {
 			// Everything decoded before the error has been handed over.
-			return 0, conn.readErr
+			// Report it once: it need not be final (the expiry of a read
+			// deadline that came with the last bytes).
+			err, conn.readErr = conn.readErr, nil
+			return 0, err
 		}
 		err = conn.readPackets()
 		if errors.Is(err, framing.ErrAgain) {
